@@ -6,7 +6,7 @@
    - [scase]: a long run observed only at its returns-to-base: (iteration, countdown installed, step
      installed) for every return among the first n iterations, compared with the countdown machine. *)
 From Coq Require Import List ZArith NArith QArith Bool Floats.
-From Crem Require Import Base.Res Dominance SuppRtbFloat Suppapitnarm.
+From Crem Require Import Base.Res Dominance NdArchive SuppRtbFloat Suppapitnarm.
 Import ListNotations.
 
 Fixpoint mask_of (a : list bool) : N :=
